@@ -115,6 +115,72 @@ theorem two_edits_commute (A B C D E r1 r2 : List Char) :
     simp only [List.length_append, List.append_assoc, Nat.add_assoc] at h1
     rw [h1]
 
+/-! the work list is applied in position-descending order -/
+
+/-- `a` lies strictly before `b` in the file -/
+def posLt (a b : Work) : Prop :=
+  a.span.line < b.span.line ∨ (a.span.line = b.span.line ∧ a.span.col < b.span.col)
+
+theorem keyLtWith_full_iff (a b : Work) : keyLtWith true true a b = true ↔ posLt a b := by
+  simp [keyLtWith, posLt]
+
+theorem mem_insertDescBy (lt : Work → Work → Bool) (w x : Work) (l : List Work) :
+    x ∈ insertDescBy lt w l ↔ x = w ∨ x ∈ l := by
+  induction l with
+  | nil => simp [insertDescBy]
+  | cons y ys ih =>
+    simp only [insertDescBy]
+    split
+    · simp [ih]; constructor
+      · rintro (h | h | h) <;> simp [h]
+      · rintro (h | h | h) <;> simp [h]
+    · simp
+
+theorem sortDescBy_length (lt : Work → Work → Bool) (ws : List Work) : (sortDescBy lt ws).length = ws.length := by
+  induction ws with
+  | nil => rfl
+  | cons w t ih =>
+    have hins : ∀ (l : List Work), (insertDescBy lt w l).length = l.length + 1 := by
+      intro l
+      induction l with
+      | nil => rfl
+      | cons x xs ihx => simp only [insertDescBy]; split <;> simp [ihx]
+    simp [sortDescBy, hins, ih]
+
+/-- insertion keeps "no element is followed by one that lies later in the file" -/
+theorem insertDescBy_sorted (w : Work) (l : List Work)
+    (h : l.Pairwise (fun a b => ¬ posLt a b)) :
+    (insertDescBy (keyLtWith true true) w l).Pairwise (fun a b => ¬ posLt a b) := by
+  induction l with
+  | nil => simp [insertDescBy]
+  | cons x xs ih =>
+    rw [List.pairwise_cons] at h
+    simp only [insertDescBy]
+    split
+    · rename_i hlt
+      have hwx : posLt w x := (keyLtWith_full_iff w x).mp hlt
+      rw [List.pairwise_cons]
+      refine ⟨?_, ih h.2⟩
+      intro y hy
+      rcases (mem_insertDescBy _ w y xs).mp hy with rfl | hy'
+      · unfold posLt at hwx ⊢; omega
+      · exact h.1 y hy'
+    · rename_i hlt
+      have hwx : ¬ posLt w x := fun hp => hlt ((keyLtWith_full_iff w x).mpr hp)
+      rw [List.pairwise_cons]
+      refine ⟨?_, List.pairwise_cons.mpr h⟩
+      intro y hy
+      rcases List.mem_cons.mp hy with rfl | hy'
+      · exact hwx
+      · have := h.1 y hy'
+        unfold posLt at hwx this ⊢; omega
+
+theorem sortDescBy_sorted (ws : List Work) :
+    (sortDescBy (keyLtWith true true) ws).Pairwise (fun a b => ¬ posLt a b) := by
+  induction ws with
+  | nil => simp [sortDescBy]
+  | cons w t ih => exact insertDescBy_sorted w _ ih
+
 /-! line offsets: `str.splitlines(True)` against the lexer's `'\n'`-only line counting -/
 
 theorem lineLens_eq_nlLineLens (s : List Char)
